@@ -14,6 +14,7 @@ from vlib import ref
 from vlib.harness import SubCheck, Violation, make_trace_machine, must, must_raise, require
 
 PROPERTY_ID = "C12"
+TECHNIQUE = 'stateful property-based testing (Hypothesis RuleBasedStateMachine with a list model; rejected and accepted mutations) + exhaustive Dicke/flip enumeration'
 RULE = (
     "Stateful: a Wavefunction (numeric numpy vector, or symbolic with bare symbols a..d at drawn "
     "positions) and a Python-list model; rules = phase-rotating assignment (must be accepted), clearly "
